@@ -12,9 +12,11 @@ def events_of(ls):
     return ls.flags
 
 
-def run_history(ops, ctx, hooks=(), configs=None):
+def run_history(ops, ctx, hooks=(), configs=None, pre=(), post=()):
     ls = lockstep.Lockstep(ctx, configs=configs)
     ls.step_hooks = list(hooks)
+    ls.pre_hooks = list(pre)
+    ls.post_hooks = list(post)
     try:
         ls.run(ops)
     finally:
@@ -46,7 +48,7 @@ def summarize(ops, limit=12):
     return out
 
 
-def make_run_shard(profile, classify, hooks=(), bulk_share=0.0, max_ops_quick=25, max_ops_thorough=60):
+def make_run_shard(profile, classify, hooks=(), bulk_share=0.0, max_ops_quick=25, max_ops_thorough=60, pre=(), post=()):
     def run_shard(spec, ctx):
         acc = ctx.acc
         max_ops = spec.get("max_ops", max_ops_quick)
@@ -55,7 +57,7 @@ def make_run_shard(profile, classify, hooks=(), bulk_share=0.0, max_ops_quick=25
             strat = gen_ops.bulk_history()
 
         def check(ops):
-            ls = run_history(ops, ctx, hooks)
+            ls = run_history(ops, ctx, hooks, pre=pre, post=post)
             acc.cls("histories")
             acc.cls("ops", len(ops))
             for f in ls.flags:
@@ -69,18 +71,18 @@ def make_run_shard(profile, classify, hooks=(), bulk_share=0.0, max_ops_quick=25
         # delta-debugging pass over the operation list instead (each candidate is re-executed from scratch).
         v = core.hyp_search(check, strat, ctx.seed, spec["n"], shrink=False)
         if v is not None:
-            raise minimize(v, ctx, hooks)
+            raise minimize(v, ctx, hooks, pre=pre, post=post)
 
     return run_shard
 
 
-def minimize(v, ctx, hooks, budget=120):
+def minimize(v, ctx, hooks, budget=120, pre=(), post=()):
     ops = list(v.case["ops"])
     best = v
 
     def fails(cand):
         try:
-            run_history(cand, core.Ctx("minimize", 0, ctx.known, ctx.scratch, 0), hooks)
+            run_history(cand, core.Ctx("minimize", 0, ctx.known, ctx.scratch, 0), hooks, pre=pre, post=post)
         except core.Violation as w:
             return w if w.sub == v.sub else None
         except Exception:
